@@ -8,28 +8,55 @@ significant byte first, i.e. in the order the hex digits are written, a short ad
 Covered (design section C20, clause -> contracts)
   1 parse_uri on shaped strings ........ parse_uri.index-dongle.<d>.<c> (27 contracts = dongle digits 1..9 x channel digits 1..3,
                                          inside: rate absent / 250K / 1M / 2M, address absent / 1..10 hex digits of either case,
-                                         rate_limit absent / 1 / 3 digits [thorough: 2 / 6 digits]; every character of every
-                                         field is symbolic), parse_uri.trailing-slash.<c>, parse_uri.serial-dongle.10/.16
-                                         (serial-number dongle ids through the stubbed crazyradio.get_serials),
-                                         parse_uri.omitted-channel (FINDING, see below)
-    settings applied to the radio ...... radio.connect
-  2 scan round trip .................... radio.scan-roundtrip (real scan_interface, every reported URI is parsed back),
-                                         radio.scan-selected-roundtrip
+                                         rate_limit absent / 1 / 3 digits [thorough: 2 / 6 and 4 / 5 / 9 digits]; every character of
+                                         every field is symbolic), parse_uri.trailing-slash.<c>, parse_uri.serial-dongle.10/.16
+                                         [thorough: 11..15, 17, 20, 24 characters] (serial-number dongle ids through the stubbed
+                                         crazyradio.get_serials), parse_uri.omitted-channel (radio://<dongle> alone; repaired in /repo
+                                         by 627c393), parse_uri.other-options (other query options around rate_limit),
+                                         parse_uri.second-parse (history: the defaults survive a parse with explicit fields, earlier
+                                         results are not changed by later parses)
+    settings applied to the radio ...... radio.connect [thorough: 2- and 9-digit dongle index, every address length],
+                                         radio.reconnect (history connect / close / connect / pause / restart on ONE driver: nothing
+                                         of the first URI survives), radio.uri-to-dongle (real RadioManager / _SharedRadio /
+                                         _SharedRadioInstance, only the USB class Crazyradio is a stub: the dongle NUMBER of the URI is
+                                         the one opened and re-opened, and a frame leaves through that dongle after it was given the
+                                         channel, rate and address of the URI; two links, equal and different dongle numbers)
+    the URI of the environment ......... uri_helper.address_from_env.<1..10> (agrees with parse_uri on the same URI),
+                                         uri_helper.uri_from_env, uri_helper.unset-variable (the library defaults name the same link),
+                                         uri_helper.address_from_env.omitted-or-option (CANDIDATE FINDING, see below)
+  2 scan round trip .................... radio.scan-roundtrip (real scan_interface, every reported URI is parsed back, every 40-bit
+                                         address), radio.scan-roundtrip.answers-<a>-<b>-<c> (a / b / c Crazyflies answer at 250K / 1M /
+                                         2M, each on its own symbolic channel; quick: 1-0-2 and 0-2-1, thorough: every combination of
+                                         0..2 answers), scan.scan_interfaces (real scan_interfaces over the real
+                                         driver list: nothing lost / twice, every reported URI - radio, usb, serial, prrt - is claimed by
+                                         the driver of its scheme and the radio URIs CONNECT to the scanned channel, rate and address),
+                                         radio.scan-selected-roundtrip, radio.scan-selected.bootloader-uris.<n> (URIs with an address
+                                         field, n answers), radio.scan-selected-roundtrip.address (CANDIDATE FINDING, see below)
   3 one driver per scheme .............. drivers.foreign-uri.<Driver> (for all URIs not starting with the driver's own prefix:
                                          WrongUriType before any side effect; this replaces the design's "extract the regex
-                                         literals and show them pairwise disjoint" by the stronger statement about the code),
-                                         drivers.first-accepting-driver (the get_link_driver loop over symbolic driver behaviour),
-                                         drivers.init_drivers, drivers.selection (real list, real drivers, 18 URIs x serial on/off),
-                                         drivers.malformed-claimed, drivers.malformed-radio-uri-accepted (FINDING, see below)
-  4 open_link .......................... open_link.driver-lookup-fails (any lookup outcome), open_link.unknown-or-malformed
-                                         (real lookup)
+                                         literals and show them pairwise disjoint" by the stronger statement about the code)
+                                         [thorough: every length 0..40], drivers.first-accepting-driver (the get_link_driver loop over
+                                         symbolic driver behaviour, lists of 0..3 [thorough: 4..7] drivers), drivers.init_drivers,
+                                         drivers.selection (real list, real drivers, the URIs of SELECTION x serial on/off; incl.
+                                         malformed usb URIs and two serial ports), drivers.prrt-binding-installed (the optional binding
+                                         as a stub: the prrt scheme is claimed, address / port / delay), drivers.malformed-claimed,
+                                         drivers.malformed-radio-uri-accepted (KNOWN FINDING, see below)
+  4 open_link .......................... open_link.driver-lookup-fails (any lookup outcome) [thorough: more lengths and exception
+                                         types], open_link.unknown-or-malformed (real lookup), open_link.twice (second failed attempt on
+                                         the same Crazyflie)
 
 Findings on the unchanged tree (contracts kept; `thorough_only` so that the quick tier stays green until they are triaged as a
 fix or a known_findings.json entry - `./vcheck C20 thorough` reports them as VIOLATION with a native replay):
-  * parse_uri.omitted-channel/no-exception: radio://<dongle>, radio://<dongle>/ and radio://<dongle>?rate_limit=<n> raise
-    ValueError("invalid literal for int() with base 10: ''") instead of defaulting to channel 2 / 2M / E7E7E7E7E7.
-  * drivers.malformed-radio-uri-accepted: radio://0/80/3M, radio://0/80/2M/E7E7E7E7E7/extra, radio://0/+80, radio://0/8_0 are
-    accepted (2M resp. channel 80) and dongle 0 is opened, where the property wants "no driver" for a malformed URI.
+  * drivers.malformed-radio-uri-accepted (listed in known_findings.json, reported by both tiers): radio://0/80/3M,
+    radio://0/80/2M/E7E7E7E7E7/extra, radio://0/+80, radio://0/8_0 are accepted (2M resp. channel 80) and dongle 0 is opened, where
+    the property wants "no driver" for a malformed URI.
+  * CANDIDATE uri_helper.address_from_env.omitted-or-option: address_from_env disagrees with parse_uri on well-formed radio URIs
+    whose last path segment is not the address: CFLIB_URI=radio://0/80 -> 0x80 (the channel read as address), radio://0 -> 0,
+    radio://0/80/2M -> None, radio://0/80/2M/E7E7E7E701?rate_limit=10 -> None, radio://0/80/2M/E7E7E7E701/ -> None (parse_uri:
+    E7E7E7E7E7 resp. E7E7E7E701).
+  * CANDIDATE radio.scan-selected-roundtrip.address: scan_selected on a link connected to a non-default address reports URIs
+    without address field; they parse back to E7E7E7E7E7, not to the address that was scanned.
+  (parse_uri.omitted-channel was a finding of the build round; it is repaired in /repo and the contract is green in both tiers.)
 
 Assumptions / stubs
   * urllib.parse.urlparse / parse_qs, re.search, binascii.unhexlify, str.strip(chars), str.format fill/align are partial models
@@ -37,16 +64,25 @@ Assumptions / stubs
     natively on a witness (concordance).
   * crazyradio.get_serials(), RadioManager, _RadioDriverThread, CfUsb, the CPX / socket / UART transports, the receive threads
     and SerialDriver.get_devices are recording stubs (c.patch) in both back ends; the prrt python binding is absent
-    (prrt_installed False, as in the sandbox); os.getenv('USE_CFLINK') is None.
+    (prrt_installed False, as in the sandbox) except in drivers.prrt-binding-installed / scan.scan_interfaces where it is a
+    recording stub; os.getenv('USE_CFLINK') is None; os.environ of uri_helper is a dictionary of the contract.
+  * radio.uri-to-dongle: Crazyradio (USB) is a recording stub that keeps the library's DR_* constants; Queue / Semaphore are the
+    sequential models, the shared radio thread runs when the contract says so (after each queued command).
   * Crazyflie objects for open_link are assembled with c.obj (constructor starts threads), callers are recording stubs.
 
 Not covered
-  * USE_CFLINK=cpp (CfLinkCppDriver: native C++ binding, not in the sandbox); cflib.utils.uri_helper (environment look-up only,
-    no clause of the property); the connection set-up that follows a successful open_link (C02).
+  * USE_CFLINK=cpp (CfLinkCppDriver: native C++ binding, not in the sandbox); the connection set-up that follows a successful
+    open_link (C02); the packet transport of the non-radio drivers (receive_packet / send_packet / close / receive threads of
+    usb, tcp, udp, serial, prrt: no clause of this property - C01 covers the radio transport); get_interfaces_status / get_status /
+    get_name (status texts), set_retries (auto-retry count, not part of a URI), RadioManager.remove (no caller),
+    Crazyflie.link_quality_updated (deprecated alias), SerialDriver.get_devices (pyserial enumeration, hardware).
   * URI lengths: strings have concrete lengths in this engine, so every "for all URIs" is a for-all over characters for each of
     an enumerated set of shapes (complete for dongle / channel / address digit counts; bounded for rate_limit digits and for
     the lengths of foreign URIs - said in `bounded=`); channel values are all 1..3 digit numbers (a superset of 0..125).
-  * PrrtDriver accepting a URI with the binding installed; debug driver (no longer exists).
+  * usb / tcp / udp / serial / prrt URIs are enumerated concrete strings (SELECTION, MALFORMED, PRRT_URIS): the regular
+    expressions of those drivers are only modelled for concrete subjects.
+  * init_drivers called twice duplicates the driver list (every scan result would be reported twice); get_link_driver still
+    returns the first driver of the scheme, so no clause of the property is violated - not put under contract.
 """
 from pyvc.api import contract
 
@@ -135,6 +171,7 @@ for _nd in range(1, 10):            # the code's own split between index and ser
     for _nch in (1, 2, 3):
         _numeric(_nd, _nch)
         _numeric(_nd, _nch, limits=(2, 6), suffix='.long-rate-limit', thorough_only=True)
+        _numeric(_nd, _nch, limits=(4, 5, 9), suffix='.rate-limit-4-5-9', thorough_only=True)
 
 
 def _trailing_slash(nch):
@@ -159,8 +196,8 @@ for _nch in (1, 2, 3):
                  'without trailing slash / rate_limit option) parses to channel 2, 2M, address E7E7E7E7E7',
           bounded='dongle index of 1, 2 or 9 digits; rate_limit value of 1 or 3 digits')
 def omitted_channel(c):
-    # FINDING on the unchanged tree (kept, thorough tier only until triaged): every one of these URIs raises ValueError
-    # (int('') in parse_uri: ''.split('/') == ['']), e.g. radio://0, radio://0/, radio://0?rate_limit=5
+    # was a finding of the build round (every one of these URIs raised ValueError: int('') in parse_uri, ''.split('/') == ['']),
+    # repaired in /repo by 627c393; e.g. radio://0, radio://0/, radio://0?rate_limit=5
     c.str('dongle', c.choice('dongle_digits', [1, 2, 9]), 48, 57)
     uri, exp = radio_uri(c, 'dongle', 0, slash=(False, True))
     c.snapshot('uri', uri)
@@ -180,15 +217,15 @@ def plugged_in(c, serials=SERIALS):
     c.patch(CRZ + ':get_serials', c.ext('get_serials', returns={'()': lambda *_a: tuple(serials)}))
 
 
-def _serial(n):
+def _serial(n, serials=SERIALS, **opts):
     @contract('C20', 'parse_uri.serial-dongle.%d' % n, [PARSE],
               clause='a dongle id that is a serial number (10 or more characters) selects the plugged-in dongle with that '
                      'serial number, compared case-insensitively, also when the serial consists of decimal digits only; an '
                      'unknown serial is an error; the other fields parse as usual',
-              bounded='serial numbers of %d characters [0-9A-Za-z]; the enumerated dongles are the 6 of SERIALS (one of '
-                      'them listed twice: the first one is taken); rest of the URI: /<2 digits>/<rate>/<10 hex digits>' % n)
+              bounded='serial numbers of %d characters [0-9A-Za-z]; the enumerated dongles are %r (one of '
+                      'them listed twice: the first one is taken); rest of the URI: /<2 digits>/<rate>/<10 hex digits>' % (n, serials), **opts)
     def k(c):
-        plugged_in(c)
+        plugged_in(c, serials)
         c.str('dongle', n, 48, 122)
         c.require('all(48 <= ord(ch) <= 57 or 65 <= ord(ch) <= 90 or 97 <= ord(ch) <= 122 for ch in dongle)')
         c.str('chan', 2, 48, 57)
@@ -214,6 +251,8 @@ def _serial(n):
 
 for _n in (10, 16):
     _serial(_n)
+for _n in (11, 12, 13, 14, 15, 17, 20, 24):       # other lengths: two plugged-in dongles have a serial number of that length
+    _serial(_n, serials=SERIALS[:2] + (('9876543210' * 3)[:_n], ('ABCDEFGHIJKLMNOPQRSTUVWXYZ0123456789')[:_n]) + SERIALS[2:], thorough_only=True)
 
 
 # ------------------------------------------------------------------------- RadioDriver.connect applies the parsed settings
@@ -227,14 +266,16 @@ def radio_hardware(c, version=0.53, returns=None):
     return radio
 
 
-@contract('C20', 'radio.connect', [RAD + ':RadioDriver.connect', RAD + ':RadioDriver.__init__', PARSE],
+def _radio_connect(name, nd, addr_digits, rl_digits, **opts):
+  @contract('C20', name, [RAD + ':RadioDriver.connect', RAD + ':RadioDriver.__init__', PARSE],
           clause='connecting to a radio URI opens exactly the named dongle once and applies exactly the channel, data rate '
                  'and address of the URI to it; the rate limit of the URI is the one handed to the link thread',
-          bounded='1-digit dongle index, rate_limit absent or of 2 digits, address absent or of 1 / 10 hex digits '
-                  '(all URI shapes are covered for parse_uri itself by the parse_uri.* contracts)', max_paths=3000)
-def radio_connect(c):
+          bounded='%d-digit dongle index, rate_limit absent or of %s digits, address absent or of %s hex digits '
+                  '(all URI shapes are covered for parse_uri itself by the parse_uri.* contracts)' % (
+                      nd, ' / '.join(map(str, rl_digits)), ' / '.join(map(str, addr_digits))), max_paths=6000, **opts)
+  def radio_connect(c):
     radio = radio_hardware(c)
-    c.str('dongle', 1, 48, 57)
+    c.str('dongle', nd, 48, 57)
     nch = c.choice('channel_digits', [1, 2, 3])
     exp = {'channel': '2', 'rate': '2', 'address': repr(E7), 'limit': 'None'}
     uri = "'radio://' + dongle"
@@ -245,13 +286,14 @@ def radio_connect(c):
     if rate is not None:
         uri += " + '/%s'" % rate
         exp['rate'] = str(RATE_CODE[rate])
-        na = c.choice('address_digits', [0, 1, 10])
+        na = c.choice('address_digits', [0] + list(addr_digits))
         if na:
             hexstr(c, 'addr', na)
             uri += " + '/' + addr"
             exp['address'] = address_spec('addr', na)
-    if c.choice('with_rate_limit', [False, True]):
-        c.str('rl', 2, 48, 57)
+    nrl = c.choice('rate_limit_digits', [0] + list(rl_digits))
+    if nrl:
+        c.str('rl', nrl, 48, 57)
         uri += " + '?rate_limit=' + rl"
         exp['limit'] = 'int(rl)'
     c.snapshot('uri', uri)
@@ -275,6 +317,12 @@ def radio_connect(c):
                  "is_same(sent('_RadioDriverThread')[0][1][0], radio) and sent('_RadioDriverThread')[0][1][6] == %s and "
                  "is_same(sent('_RadioDriverThread')[0][1][4], err_cb)" % exp['limit'])
         c.ensure('driver-state', "drv.uri == uri and drv.rate_limit == %s" % exp['limit'])
+  return radio_connect
+
+
+_radio_connect('radio.connect', 1, (1, 10), (2,))
+_radio_connect('radio.connect.dongle-2-digits', 2, tuple(range(1, 11)), (1, 3, 5), thorough_only=True)
+_radio_connect('radio.connect.dongle-9-digits', 9, tuple(range(1, 11)), (1, 3, 5), thorough_only=True)
 
 
 # ------------------------------------------------------------------------- scanning reports URIs that parse back
@@ -343,19 +391,22 @@ HARDWARE_OF = {
     'UsbDriver': ('CfUsb', 'cfusb', '_UsbReceiveThread', 'usb_thread'),
     'SerialDriver': ('serial_devices', 'UARTTransport', 'serial_CPX', 'serial_cpx', 'serial_thread_cls', 'serial_thread'),
     'UdpDriver': ('udp_socket_module', 'udp_socket'),
-    'PrrtDriver': (),
+    'PrrtDriver': ('prrt', 'prrt_socket'),
     'TcpDriver': ('SocketTransport', 'tcp_CPX', 'tcp_cpx', 'tcp_thread_cls', 'tcp_thread'),
 }
 
 
-def hardware(c):
+SERIAL_PORTS = (('ttyACM1', '/dev/ttyACM1'), ('ttyUSB0', '/dev/ttyUSB0'))       # port name -> device, as SerialDriver.get_devices reports them
+
+
+def hardware(c, radio_returns=None, cfusb_factory=None, prrt=False):
     """every constructor through which a driver reaches hardware, a socket or a thread is a recording stub; the python
-    prrt binding is not installed (as in the sandbox)"""
-    radio_hardware(c)
+    prrt binding is not installed (as in the sandbox) unless prrt=True (then it is a recording stub as well)"""
+    radio_hardware(c, returns=radio_returns)
     plugged_in(c)
     cfusb = c.ext('cfusb', attrs={'dev': True})
     usb_thread = c.ext('usb_thread')
-    c.patch(USB + ':CfUsb', c.ext('CfUsb', returns={'()': lambda *_a: cfusb}))
+    c.patch(USB + ':CfUsb', c.ext('CfUsb', returns={'()': cfusb_factory or (lambda *_a: cfusb)}))
     c.patch(USB + ':_UsbReceiveThread', c.ext('_UsbReceiveThread', returns={'()': lambda *_a: usb_thread}))
     tcp_cpx, tcp_thread = c.ext('tcp_cpx'), c.ext('tcp_thread')
     c.patch(TCP + ':SocketTransport', c.ext('SocketTransport'))
@@ -364,24 +415,28 @@ def hardware(c):
     udp_socket = c.ext('udp_socket')
     c.patch(UDP + ':socket', c.ext('udp_socket_module', attrs={'AF_INET': 2, 'SOCK_DGRAM': 2}, returns={'socket': lambda *_a: udp_socket}))
     ser_cpx, ser_thread = c.ext('serial_cpx'), c.ext('serial_thread')
-    c.patch(SER + ':SerialDriver.get_devices', c.ext('serial_devices', returns={'()': lambda *_a: c.dict([('ttyUSB0', '/dev/ttyUSB0')])}))
+    c.patch(SER + ':SerialDriver.get_devices', c.ext('serial_devices', returns={'()': lambda *_a: c.dict(list(SERIAL_PORTS))}))
     c.patch(SER + ':UARTTransport', c.ext('UARTTransport'))
     c.patch(SER + ':CPX', c.ext('serial_CPX', returns={'()': lambda *_a: ser_cpx}))
     c.patch(SER + ':_CPXReceiveThread', c.ext('serial_thread_cls', returns={'()': lambda *_a: ser_thread}))
-    c.patch(PRRT + ':prrt_installed', False)
+    if prrt:
+        prrt_socket = c.ext('prrt_socket')
+        c.patch(PRRT + ':prrt', c.ext('prrt', returns={'PrrtSocket': lambda *_a: prrt_socket}), create=True)
+    c.patch(PRRT + ':prrt_installed', bool(prrt))
 
 
 FOREIGN_LENGTHS = (0, 1, 3, 5, 6, 7, 8, 9, 10, 12, 16)
+FOREIGN_LENGTHS_THOROUGH = tuple(n for n in range(0, 41) if n not in FOREIGN_LENGTHS)
 
 
-def _foreign(driver):
+def _foreign(driver, FOREIGN_LENGTHS=FOREIGN_LENGTHS, suffix='', **opts):
     mod, prefix = DRIVERS[driver]
 
-    @contract('C20', 'drivers.foreign-uri.' + driver, [mod + ':%s.connect' % driver, mod + ':%s.__init__' % driver],
+    @contract('C20', 'drivers.foreign-uri.' + driver + suffix, [mod + ':%s.connect' % driver, mod + ':%s.__init__' % driver],
               clause='%s.connect refuses every URI that does not start with its own scheme prefix %r with WrongUriType, before '
                      'any side effect (nothing opened, driver state untouched) - so no URI of another or of an unknown scheme '
                      'is ever claimed by this driver' % (driver, prefix),
-              bounded='URIs of length %s over the printable ASCII characters (each character free)' % (FOREIGN_LENGTHS,))
+              bounded='URIs of length %s over the printable ASCII characters (each character free)' % (FOREIGN_LENGTHS,), **opts)
     def k(c):
         hardware(c)
         n = c.choice('length', list(FOREIGN_LENGTHS))
@@ -400,6 +455,7 @@ def _foreign(driver):
 
 for _d in DRIVERS:
     _foreign(_d)
+    _foreign(_d, FOREIGN_LENGTHS_THOROUGH, suffix='.more-lengths', thorough_only=True)
 
 
 def driver_list(c, serial):
@@ -429,10 +485,14 @@ SELECTION = [
     ('usb://0', 'UsbDriver'), ('usb://12', 'UsbDriver'),
     ('udp://127.0.0.1:7777', 'UdpDriver'),
     ('tcp://192.168.4.1:5000', 'TcpDriver'),
-    ('serial://ttyUSB0', 'SerialDriver'),
+    ('serial://ttyUSB0', 'SerialDriver'), ('serial://ttyACM1', 'SerialDriver'),
     ('prrt://10.0.0.1:5000', 'PrrtDriver'),
     ('bogus://something', None), ('radiox://0/80/2M', None), ('', None), ('RADIO://0/80/2M', None), (' usb://0', None),
     ('xtcp://1.2.3.4:5', None), ('tcp:/1.2.3.4:5', None), ('debug://0/0', None), ('0', None), ('://', None),
+    # a usb URI is usb://<decimal index> and nothing else: everything else of that scheme is malformed = no driver
+    ('usb://007', 'UsbDriver'), ('usb://', None), ('usb://a', None), ('usb://0/1', None), ('usb://0 ', None), ('usb://-1', None),
+    ('usb://0x1', None), ('usb://1?x=2', None), ('usb:/0', None), ('USB://0', None), ('udp:/127.0.0.1:7777', None), ('prrt:/10.0.0.1:5000', None),
+    ('serial:/ttyUSB0', None),
 ]
 
 
@@ -464,19 +524,22 @@ def selection(c):
         c.ensure('driver-of-the-scheme', "raised is None and typename(result) == %r" % want)
         c.ensure('only-its-hardware', 'len(trace) > 0 and all(e[0].split(".")[0] in %r for e in trace)' % (HARDWARE_OF[want],))
     if want == 'UsbDriver':
-        c.ensure('usb-device-index', "len(sent('CfUsb')) == 1 and sent('CfUsb')[0][2] == {'devid': %d}" % int(uri[6:]))
+        c.ensure('usb-device-index', "len(sent('CfUsb')) == 1 and sent('CfUsb')[0][2] == {'devid': %d}" % int(uri[6:], 10))
     if want == 'TcpDriver':
         c.ensure('tcp-endpoint', "len(sent('SocketTransport')) == 1 and sent('SocketTransport')[0][1] == ('192.168.4.1', 5000)")
     if want == 'UdpDriver':
         c.ensure('udp-endpoint', "len(sent('udp_socket.connect')) == 1 and sent('udp_socket.connect')[0][1] == (('127.0.0.1', 7777),)")
     if want == 'SerialDriver':
-        c.ensure('serial-device', "len(sent('UARTTransport')) == 1 and sent('UARTTransport')[0][1][0] == '/dev/ttyUSB0'")
+        c.ensure('serial-device', "len(sent('UARTTransport')) == 1 and sent('UARTTransport')[0][1][0] == %r" % dict(SERIAL_PORTS)[uri[9:]])
 
 
 MALFORMED = [      # URIs of a known scheme that its driver must reject; the error is the driver's, no other driver takes over
     ('radio://0/abc', 'ValueError'), ('radio://0/80/2M/E7E7E7E7E7E', 'Error'), ('radio://0/80/2M/E7E7E7E7E7E7', 'struct.error'),
     ('radio://0/80/2M/G7', 'Error'), ('radio://E7E7E7E7E8/80', 'Exception'),
     ('serial://tty USB0', 'Exception'), ('serial://nosuchport', 'Exception'), ('prrt://x', 'Exception'),
+    ('radio://0/80/2M/E7E7E7E7E7?rate_limit=abc', 'ValueError'), ('radio://0/1e2', 'ValueError'), ('radio:///80', 'Exception'),
+    ('radio://0/80/2M/0xE7', 'Error'), ('serial://', 'Exception'), ('prrt://10.0.0.1', 'Exception'),
+    ('prrt://10.0.0.1:5000/1234567', 'Exception'), ('prrt://10.0.0.1:123456', 'Exception'), ('prrt://1000.0.0.1:5000', 'Exception'),
 ]
 
 
@@ -514,14 +577,15 @@ def stub_driver(c, i, behaviour, WUT):
     return c.ext('Driver%d' % i, returns={'()': lambda *_a: inst}), inst
 
 
-@contract('C20', 'drivers.first-accepting-driver', [CRTP + ':get_link_driver'],
+def _first_accepting(name, sizes, **opts):
+  @contract('C20', name, [CRTP + ':get_link_driver'],
           clause='get_link_driver asks the drivers in list order and returns the first instance whose connect does not raise '
                  'WrongUriType, passing the URI and both callbacks through; None if all refuse; another error of a driver ends the '
                  'search with that error; drivers after the selected one are not even instantiated',
-          bounded='driver lists of 0..3 drivers, each accepting / refusing / failing')
-def first_accepting(c):
+          bounded='driver lists of %s drivers, each accepting / refusing / failing' % ' / '.join(map(str, sizes)), max_paths=6000, **opts)
+  def first_accepting(c):
     WUT = c.cls('cflib.crtp.exceptions:WrongUriType')
-    n = c.choice('drivers', [0, 1, 2, 3])
+    n = c.choice('drivers', list(sizes))
     beh = [c.choice('behaviour%d' % i, [0, 1, 2]) for i in range(n)]
     stubs = [stub_driver(c, i, beh[i], WUT) for i in range(n)]
     c.patch(CRTP + ':CLASSES', c.list([cls for cls, _ in stubs]))
@@ -543,6 +607,11 @@ def first_accepting(c):
         c.ensure('first-accepting-instance', 'raised is None and is_same(result, inst%d)' % first[0])
     else:
         c.ensure('other-error-propagates', "raised == 'RuntimeError'")
+  return first_accepting
+
+
+_first_accepting('drivers.first-accepting-driver', (0, 1, 2, 3))
+_first_accepting('drivers.first-accepting-driver.longer-lists', (4, 5, 6, 7), thorough_only=True)   # 7 = the longest real list + 1
 
 
 # ------------------------------------------------------------------------- open_link: failure is a notification, not an exception
@@ -572,18 +641,28 @@ def check_failed_notification(c, prefix):
     c.ensure('connection-not-started', "len(calls('incoming.')) == 0 and len(calls('packet_received.')) == 0")
 
 
-@contract('C20', 'open_link.driver-lookup-fails', [CF + ':Crazyflie.open_link'],
+LOOKUP_OUTCOMES = [None, 'Exception', 'ValueError', 'struct.error', 'KeyError', 'OSError']
+
+
+def _open_link_lookup_fails(name, lengths, outcomes, **opts):
+  @contract('C20', name, [CF + ':Crazyflie.open_link'],
           clause='whatever the driver lookup does for a URI - no driver (None) or any exception - open_link reports exactly one '
                  'connection_failed(uri, text) and lets nothing escape',
-          bounded='URIs of 7 free printable characters; lookup outcomes: None, Exception, ValueError, struct.error, KeyError, OSError')
-def open_link_lookup_fails(c):
-    outcome = c.choice('lookup', [None, 'Exception', 'ValueError', 'struct.error', 'KeyError', 'OSError'])
+          bounded='URIs of %s free printable characters; lookup outcomes: %s' % (' / '.join(map(str, lengths)), ', '.join(map(str, outcomes))), **opts)
+  def open_link_lookup_fails(c):
+    outcome = c.choice('lookup', list(outcomes))
     c.patch(CRTP + ':get_link_driver', c.ext('get_link_driver', returns={'()': (lambda *_a: None) if outcome is None else c.raiser(outcome, 'boom')}))
     cf = crazyflie(c)
-    c.str('uri', 7)
+    c.str('uri', c.choice('length', list(lengths)))
     c.call((cf, 'open_link'), c.get('uri'))
     c.ensure('lookup-asked-once-for-the-uri', "len(sent('get_link_driver')) == 1 and sent('get_link_driver')[0][1][0] == uri")
     check_failed_notification(c, 'No driver found or malformed URI: ' if outcome is None else "Couldn't load link driver: ")
+  return open_link_lookup_fails
+
+
+_open_link_lookup_fails('open_link.driver-lookup-fails', (7,), LOOKUP_OUTCOMES)
+_open_link_lookup_fails('open_link.driver-lookup-fails.more', (0, 1, 2, 8, 13, 26, 40), LOOKUP_OUTCOMES + [
+    'IndexError', 'AttributeError', 'TypeError', 'RuntimeError', 'AssertionError', 'UnicodeDecodeError', 'queue.Empty'], thorough_only=True)
 
 
 @contract('C20', 'open_link.unknown-or-malformed', [CF + ':Crazyflie.open_link', CRTP + ':get_link_driver'],
@@ -649,3 +728,610 @@ def scan_selected(c):
     if c.get('raised') is None:
         c.ensure('dongle-channel-rate-address', 'result[0] == 0 and result[1] == ch and result[2] == dr and tuple(result[3]) == %r '
                  'and result[4] is None' % (E7,))
+
+
+# ------------------------------------------------------------------------- cflib.utils.uri_helper: the URI of the environment
+
+URIH = 'cflib.utils.uri_helper'
+
+
+def environment(c, pairs):
+    """the process environment as uri_helper sees it (os.environ is the only thing it uses of os)"""
+    c.patch(URIH + ':os', c.ext('os_module', attrs={'environ': c.dict(list(pairs))}))
+
+
+def hexvalue_spec(name, n):
+    """spec text: the integer written by the n hex digits of the string `name`"""
+    return '(' + ' + '.join('%s * %d' % (hv('%s[%d]' % (name, i)), 16 ** (n - 1 - i)) for i in range(n)) + ')'
+
+
+def _address_from_env(n):
+    @contract('C20', 'uri_helper.address_from_env.%d' % n, [URIH + ':address_from_env', PARSE],
+              clause='the address that address_from_env reads from the radio URI of the environment is the address of that URI: the '
+                     'integer written by its %d hex digits (either case), i.e. most significant byte first the 5 address bytes that '
+                     'parse_uri returns for the same URI; for the default and for a caller-chosen variable name' % n,
+              bounded='URI shape radio://<1 digit>/<2 digits>/<rate>/<%d hex digits>; another variable of the environment holds a '
+                      'different radio URI' % n)
+    def k(c):
+        c.str('dongle', 1, 48, 57)
+        c.str('chan', 2, 48, 57)
+        hexstr(c, 'addr', n)
+        rate = c.choice('rate', ['250K', '1M', '2M'])
+        c.snapshot('uri', "'radio://' + dongle + '/' + chan + '/%s/' + addr" % rate)
+        var = c.choice('variable', ['CFLIB_URI', 'OTHER_URI'])
+        other = 'OTHER_URI' if var == 'CFLIB_URI' else 'CFLIB_URI'
+        environment(c, [('HOME', '/root'), (other, 'radio://0/10/250K/0102030405'), (var, c.get('uri'))])
+        if var == 'CFLIB_URI':
+            c.call(URIH + ':address_from_env')
+        else:
+            c.call(URIH + ':address_from_env', env=var)
+        c.ensure('address-of-the-uri', 'raised is None and result == ' + hexvalue_spec('addr', n))
+        if c.get('raised') is not None:
+            return
+        c.snapshot('env_address', 'result')
+        c.call(PARSE, c.get('uri'))
+        c.ensure('agrees-with-parse_uri', 'raised is None and tuple(result[3]) == ' + be40('env_address'))
+    return k
+
+
+for _n in range(1, 11):
+    _address_from_env(_n)
+
+
+@contract('C20', 'uri_helper.unset-variable', [URIH + ':address_from_env', URIH + ':uri_from_env', PARSE],
+          clause='without the variable in the environment the helpers return the given default, and the library defaults name the '
+                 'same link: the default URI parses to dongle 0, channel 80, 2M and the default address E7E7E7E7E7')
+def env_unset(c):
+    environment(c, [('HOME', '/root'), ('OTHER_URI', 'radio://0/10/250K/0102030405')])
+    c.int('d', 0, 2 ** 40 - 1)
+    c.str('du', 12)
+    c.call(URIH + ':address_from_env', default=c.get('d'))
+    c.ensure('given-default-address', 'raised is None and result == d')
+    c.call(URIH + ':uri_from_env', default=c.get('du'))
+    c.ensure('given-default-uri', 'raised is None and result == du')
+    c.call(URIH + ':address_from_env')
+    c.ensure('no-exception', 'raised is None')
+    c.snapshot('default_address', 'result')
+    c.call(URIH + ':uri_from_env')
+    c.ensure('no-exception-uri', 'raised is None')
+    c.snapshot('default_uri', 'result')
+    c.call(PARSE, c.get('default_uri'))
+    c.ensure('default-uri-is-well-formed', 'raised is None and result[0] == 0 and result[1] == 80 and result[2] == 2 and result[4] is None')
+    c.ensure('defaults-name-the-same-address', 'tuple(result[3]) == %r and tuple(result[3]) == %s' % (E7, be40('default_address')))
+
+
+@contract('C20', 'uri_helper.uri_from_env', [URIH + ':uri_from_env'],
+          clause='uri_from_env returns the URI of the named environment variable unchanged (default and caller-chosen name), whatever '
+                 'other variables hold',
+          bounded='URIs of 7, 12 or 26 free printable characters')
+def uri_from_env(c):
+    c.str('uri', c.choice('length', [7, 12, 26]))
+    var = c.choice('variable', ['CFLIB_URI', 'OTHER_URI'])
+    other = 'OTHER_URI' if var == 'CFLIB_URI' else 'CFLIB_URI'
+    environment(c, [(other, 'radio://0/10/250K/0102030405'), (var, c.get('uri'))])
+    if var == 'CFLIB_URI':
+        c.call(URIH + ':uri_from_env')
+    else:
+        c.call(URIH + ':uri_from_env', var)
+    c.ensure('the-uri-of-that-variable', 'raised is None and result == uri')
+    c.call(URIH + ':uri_from_env', env=var, default='usb://0')
+    c.ensure('default-not-used-when-set', 'raised is None and result == uri')
+
+
+ENV_SHAPES = ['radio://0/80', 'radio://0/80/2M', 'radio://0', 'radio://0/80/2M/E7E7E7E701?rate_limit=10', 'radio://0/80/2M/E7E7E7E701/',
+              'radio://0/80/250K/A1?rate_limit=100']
+
+
+@contract('C20', 'uri_helper.address_from_env.omitted-or-option', [URIH + ':address_from_env', PARSE],
+          clause='address_from_env agrees with parse_uri on every well-formed radio URI, also with omitted trailing fields (address '
+                 'E7E7E7E7E7), a trailing slash or a query option after the address',
+          bounded='the %d URIs of ENV_SHAPES' % len(ENV_SHAPES), thorough_only=True)
+def env_shapes(c):
+    # CANDIDATE FINDING on the unchanged tree (thorough tier only until triaged): radio://0/80 -> 0x80 (the channel is read as the
+    # address), radio://0/80/2M -> None, radio://0 -> 0, ...?rate_limit=10 -> None, trailing slash -> None
+    uri = ENV_SHAPES[c.choice('uri_index', list(range(len(ENV_SHAPES))))]
+    c.let('uri', uri)
+    environment(c, [('CFLIB_URI', uri)])
+    c.call(URIH + ':address_from_env')
+    c.ensure('no-exception', 'raised is None')
+    c.snapshot('env_address', 'result')
+    c.call(PARSE, uri)
+    c.require('raised is None')
+    c.ensure('agrees-with-parse_uri', 'env_address is not None and tuple(result[3]) == ' + be40('env_address'))
+
+
+# ------------------------------------------------------------------------- scanning all interfaces
+
+CFUSB = 'cflib.drivers.cfusb'
+SCAN_FUNCS = [CRTP + ':scan_interfaces', CRTP + ':get_link_driver', RAD + ':RadioDriver.scan_interface', USB + ':UsbDriver.scan_interface',
+              CFUSB + ':CfUsb.scan', SER + ':SerialDriver.scan_interface', UDP + ':UdpDriver.scan_interface',
+              PRRT + ':PrrtDriver.scan_interface', TCP + ':TcpDriver.scan_interface']
+
+
+def _scan_interfaces(name, addr_lo, addr_text, **opts):
+  @contract('C20', name, SCAN_FUNCS,
+          clause='scan_interfaces (real driver list with / without the serial driver and the prrt binding, real drivers) reports what '
+                 'every driver found - nothing is lost, nothing twice - and every reported URI is claimed by exactly the driver of '
+                 'its scheme when it is handed to get_link_driver; the radio URIs connect to dongle 0 with the channel that answered, '
+                 'the data rate of that scan and the scanned address',
+          bounded='one Crazyflie answers on the radio per data rate (same symbolic channel 0..125), one Crazyflie on USB, two '
+                  'serial ports; scan address: none, or ' + addr_text, max_paths=3000, **opts)
+  def scan_interfaces(c):
+    serial = c.choice('enable_serial_driver', [False, True])
+    prrt = c.choice('prrt_binding_installed', [False, True])
+    ch = c.int('ch', 0, 125)
+    c.patch(CFUSB + ':usb', c.ext('usb'))
+    usb_device = c.ext('usb_device')
+
+    def open_usb(*_a):              # the real scan() / close() of the USB layer on an opened device
+        return c.obj(CFUSB + ':CfUsb', dev=usb_device, handle=c.ext('cfusb'), version=0.0)
+    hardware(c, radio_returns={'scan_channels': lambda *_a: (ch,)}, cfusb_factory=open_usb, prrt=prrt)
+    c.patch(SER + ':found_serial', True)
+    driver_list(c, serial)
+    given = c.choice('address_given', [False, True])
+    address = c.int('address', addr_lo, 2 ** 40 - 1) if given else c.let('address', None)
+    c.snapshot('want_addr', be40('address') if given else repr(E7))
+    c.call(CRTP + ':scan_interfaces', address)
+    c.ensure('no-exception', 'raised is None')
+    if c.get('raised') is not None:
+        return
+    c.snapshot('found', 'tuple(result)')
+    expected = {'RadioDriver': 3, 'UsbDriver': 1, 'SerialDriver': len(SERIAL_PORTS) if serial else 0, 'PrrtDriver': 1 if prrt else 0}
+    c.ensure('one-entry-per-answer', 'len(found) == %d' % sum(expected.values()))
+    n = c.concretize('len(found)')
+    seen = {}
+    rates = []
+    c.let('stat_cb', c.ext('stat_cb'))
+    c.let('err_cb', c.ext('err_cb'))
+    for i in range(n):
+        c.snapshot('u', 'found[%d][0]' % i)
+        c.reset_trace()
+        c.call(CRTP + ':get_link_driver', c.get('u'), c.get('stat_cb'), c.get('err_cb'))
+        c.ensure('reported-uri-%d-is-claimed' % i, 'raised is None and result is not None')
+        if c.get('raised') is not None or c.get('result') is None:
+            continue
+        c.snapshot('tn', 'typename(result)')
+        tn = c.get('tn')
+        seen[tn] = seen.get(tn, 0) + 1
+        c.ensure('reported-uri-%d-claimed-by-the-driver-of-its-scheme' % i, 'tn in %r and u.startswith(%r)' % (
+            tuple(DRIVERS), DRIVERS.get(tn, ('', '?'))[1]))
+        c.ensure('reported-uri-%d-only-its-hardware' % i, 'all(e[0].split(".")[0] in %r for e in trace)' % (HARDWARE_OF.get(tn, ()),))
+        if tn == 'RadioDriver':
+            c.ensure('reported-uri-%d-dongle-0-channel-address' % i,
+                     "[e[1] for e in trace if e[0] == 'RadioManager.open'] == [(0,)] and "
+                     "[e[1] for e in trace if e[0] == 'radio.set_channel'] == [(ch,)] and "
+                     "[tuple(e[1][0]) for e in trace if e[0] == 'radio.set_address'] == [want_addr]")
+            c.snapshot('dr', "[e[1][0] for e in trace if e[0] == 'radio.set_data_rate'][-1]")
+            rates.append(c.concretize('dr'))
+    c.let('seen', tuple(sorted(seen.items())))
+    c.ensure('every-driver-s-findings-reported', 'seen == %r' % (tuple(sorted((k, v) for k, v in expected.items() if v)),))
+    c.let('rates', tuple(sorted(rates)))
+    c.ensure('each-data-rate-reported-once', 'rates == (0, 1, 2)')
+  return scan_interfaces
+
+
+_scan_interfaces('scan.scan_interfaces', 16 ** 9, 'any address of 10 hex digits')
+_scan_interfaces('scan.scan_interfaces.any-address', 0, 'any 40-bit address (1..10 hex digits)', thorough_only=True)
+
+
+# ------------------------------------------------------------------------- histories: a second URI on the same objects
+
+# spec text: the rate limit handed to a link thread by the constructor call e (7th positional argument or keyword)
+THREAD_RATE_LIMIT = "(e[1][6] if len(e[1]) > 6 else e[2]['rate_limit'])"
+
+
+def _radio_reconnect(name, na, nrl, **opts):
+  @contract('C20', name, [RAD + ':RadioDriver.connect', RAD + ':RadioDriver.close', RAD + ':RadioDriver.pause',
+                                     RAD + ':RadioDriver.restart', PARSE],
+          clause='the settings of a radio link are those of the URI it was LAST connected to: after close() the same driver connects '
+                 'to another URI - exactly the dongle of the new URI is opened and exactly its channel, data rate, address and rate '
+                 'limit are used, nothing of the first URI survives (also for the link thread that pause() / restart() creates)',
+          bounded='history connect(A), close(), connect(B), pause(), restart() in both orders of A = radio://<d>/<2 digits>/250K/'
+                  '<%d hex digits>?rate_limit=<%d digits> and B = radio://<d>/<1 digit> (rate, address, rate limit omitted)' % (na, nrl),
+          max_paths=2000, **opts)
+  def radio_reconnect(c):
+    radio = radio_hardware(c)
+    c.let('radio', radio)
+    c.str('dA', 1, 48, 57), c.str('dB', 1, 48, 57)
+    c.str('chanA', 2, 48, 57), c.str('chanB', 1, 48, 57)
+    hexstr(c, 'addr', na)
+    c.str('rl', nrl, 48, 57)
+    c.require('int(rl) > 0')
+    uris = {'A': ("'radio://' + dA + '/' + chanA + '/250K/' + addr + '?rate_limit=' + rl",
+                  {'dongle': 'int(dA)', 'channel': 'int(chanA)', 'rate': '0', 'address': address_spec('addr', na), 'limit': 'int(rl)'}),
+            'B': ("'radio://' + dB + '/' + chanB",
+                  {'dongle': 'int(dB)', 'channel': 'int(chanB)', 'rate': '2', 'address': repr(E7), 'limit': 'None'})}
+    order = c.choice('order', ['AB', 'BA'])
+    drv = c.new(RAD + ':RadioDriver')
+    c.let('drv', drv)
+    c.let('stat_cb', c.ext('stat_cb')), c.let('err_cb', c.ext('err_cb'))
+    c.snapshot('uri1', uris[order[0]][0])
+    c.snapshot('uri2', uris[order[1]][0])
+    exp = uris[order[1]][1]
+    c.call((drv, 'connect'), c.get('uri1'), c.get('stat_cb'), c.get('err_cb'))
+    c.require('raised is None')
+    c.call((drv, 'close'))
+    c.ensure('close-returns', 'raised is None')
+    c.reset_trace()
+    c.call((drv, 'connect'), c.get('uri2'), c.get('stat_cb'), c.get('err_cb'))
+    c.ensure('second-connect-succeeds', 'raised is None')
+    if c.get('raised') is not None:
+        return
+    c.ensure('exactly-the-dongle-of-the-new-uri', "[e[1] for e in trace if e[0] == 'RadioManager.open'] == [(%s,)]" % exp['dongle'])
+    c.ensure('channel-of-the-new-uri', "[e[1] for e in trace if e[0] == 'radio.set_channel'] == [(%s,)]" % exp['channel'])
+    c.ensure('data-rate-of-the-new-uri', "[e[1] for e in trace if e[0] == 'radio.set_data_rate'] == [(%s,)]" % exp['rate'])
+    c.ensure('address-of-the-new-uri', "[tuple(e[1][0]) for e in trace if e[0] == 'radio.set_address'] == [%s]" % exp['address'])
+    c.ensure('rate-limit-of-the-new-uri', "[%s for e in trace if e[0] == '_RadioDriverThread'] == [%s]" % (THREAD_RATE_LIMIT, exp['limit']))
+    c.call((drv, 'pause'))
+    c.require('raised is None')
+    c.reset_trace()
+    c.call((drv, 'restart'))
+    c.ensure('restart-returns', 'raised is None')
+    c.ensure('restarted-link-thread-uses-the-radio-and-rate-limit-of-the-new-uri',
+             "[(is_same(e[1][0], radio), %s) for e in trace if e[0] == '_RadioDriverThread'] == [(True, %s)]" % (THREAD_RATE_LIMIT, exp['limit']))
+    c.ensure('restart-opens-no-other-dongle', "len(calls('RadioManager')) == 0")
+  return radio_reconnect
+
+
+_radio_reconnect('radio.reconnect', 10, 2)
+for _na, _nrl in ((1, 1), (4, 3), (9, 5)):
+    _radio_reconnect('radio.reconnect.address-%d-digits' % _na, _na, _nrl, thorough_only=True)
+
+
+ACK = 'cflib.drivers.crazyradio:_radio_ack'
+
+
+def _uri_to_dongle(name, dongles, rates_b, **opts):
+  @contract('C20', name,
+          [RAD + ':RadioDriver.connect', RAD + ':RadioDriver.close', PARSE, RAD + ':RadioManager.open', RAD + ':_SharedRadio.__init__',
+           RAD + ':_SharedRadio.open_instance', RAD + ':_SharedRadio.run', RAD + ':_SharedRadioInstance.send_packet',
+           RAD + ':_SharedRadioInstance.close'],
+          clause='a radio URI names exactly one dongle: with the real RadioManager / shared radio (only the USB dongle class Crazyradio '
+                 'is a stub) two links get the dongle of their own URI - one Crazyradio per dongle number, opened with that number, '
+                 'shared iff the numbers are equal - and a frame of either link goes out through its own dongle after that dongle was '
+                 'given the channel, data rate and address of the link\'s URI; after both links were closed a new link on the first '
+                 'dongle number re-opens that dongle number',
+          bounded='dongle numbers %s for either link; URIs radio://<d>/<2 digits>/<rate>/<10 hex digits>, rate of B one of %s; history: '
+                  'connect A, connect B, A sends, B sends, close A, close B, connect C with the URI of A, C sends' % (dongles, rates_b),
+          max_paths=4000, **opts)
+  def uri_to_dongle(c):
+    c.virtual_time()
+    frames = {k: c.bytes('frame' + k, 3) for k in 'ABC'}
+    ack = c.obj(ACK, ack=True, data=c.bytes('ackdata', 1), powerDet=False, retry=0)
+    made = []
+
+    def make(_i, args, kwargs):
+        made.append(kwargs.get('devid', args[0] if args else 'default'))
+        return c.ext('dongle%d' % len(made), attrs={'version': 0.5}, returns={'send_packet': lambda *_a: ack})
+    real = c.cls(CRZ + ':Crazyradio')       # the stub keeps the library's own data-rate constants
+    c.patch(RAD + ':Crazyradio', c.ext('Crazyradio', attrs={n: c.getfield(real, n) for n in ('DR_250KPS', 'DR_1MPS', 'DR_2MPS')},
+                                       returns={'()': make}))
+    locks, queues = [], []
+
+    def sem(*_a):
+        locks.append(c.lock('sem%d' % len(locks)))
+        return locks[-1]
+
+    def mkq(*_a):
+        queues.append(c.queue('q%d' % len(queues)))
+        return queues[-1]
+    c.patch(RAD + ':Semaphore', c.ext('Semaphore', returns={'()': sem}))
+    c.patch(RAD + ':Queue', c.ext('Queue', returns={'()': mkq}))
+    radios = c.patch(RAD + ':RadioManager._radios', c.list([]))
+    c.patch(RAD + ':RadioManager._lock', c.lock('manager_lock'))
+    c.patch(RAD + ':_RadioDriverThread', c.ext('_RadioDriverThread', returns={'()': lambda *_a: c.ext('link_thread')}))
+    dn = {'A': c.choice('dongleA', list(dongles)), 'B': c.choice('dongleB', list(dongles))}
+    dn['C'] = dn['A']
+    rate = {'A': c.choice('rateA', ['250K', '1M', '2M']), 'B': c.choice('rateB', list(rates_b))}
+    rate['C'] = rate['A']
+    for k in 'AB':
+        c.str('chan' + k, 2, 48, 57)
+        hexstr(c, 'addr' + k, 10)
+        c.snapshot('uri' + k, "'radio://%d/' + chan%s + '/%s/' + addr%s" % (dn[k], k, rate[k], k))
+    c.let('uriC', c.get('uriA')), c.let('chanC', c.get('chanA')), c.let('addrC', c.get('addrA'))
+    c.let('radios', radios)
+    drv = {}
+
+    def connect(k):
+        drv[k] = c.new(RAD + ':RadioDriver')
+        c.call((drv[k], 'connect'), c.get('uri' + k), c.ext('stat_cb'), c.ext('err_cb'))
+        c.ensure('connect-%s' % k, 'raised is None')
+        return c.get('raised') is None
+
+    def serve():
+        """the radio thread of every opened dongle serves the queued commands, then waits"""
+        for i in range(c.concretize('len(radios)')):
+            c.snapshot('shared_radio', 'radios[%d]' % i)
+            if c.get('shared_radio') is not None:
+                c.call((c.get('shared_radio'), 'run'))        # ends with the pseudo exception Deadlock: waiting for the next command
+
+    def send(k, dongle_index):
+        c.reset_trace()
+        c.call((c.getfield(drv[k], '_radio'), 'send_packet'), frames[k])
+        serve()
+        c.let('frame', frames[k])
+        name = 'dongle%d' % dongle_index
+        c.snapshot('tr', "tuple(e for e in trace if e[0].startswith('dongle'))")
+        c.ensure('frame-of-%s-goes-out-through-its-own-dongle-only' % k,
+                 "[e[0] for e in tr if e[0].endswith('.send_packet')] == ['%s.send_packet'] and "
+                 "bytes([e for e in tr if e[0].endswith('.send_packet')][0][1][0]) == frame" % name)
+        if [e[0] for e in c.get('tr') if e[0].endswith('.send_packet')] != [name + '.send_packet']:
+            return
+        c.snapshot('before', "tr[:[e[0] for e in tr].index('%s.send_packet')]" % name)
+        c.ensure('dongle-of-%s-was-given-the-channel-of-its-uri' % k,
+                 "[e[1] for e in before if e[0] == '%s.set_channel'][-1:] == [(int(chan%s),)]" % (name, k))
+        c.ensure('dongle-of-%s-was-given-the-data-rate-of-its-uri' % k,
+                 "[e[1] for e in before if e[0] == '%s.set_data_rate'][-1:] == [(%d,)]" % (name, RATE_CODE[rate[k]]))
+        c.ensure('dongle-of-%s-was-given-the-address-of-its-uri' % k,
+                 "[tuple(e[1][0]) for e in before if e[0] == '%s.set_address'][-1:] == [%s]" % (name, address_spec('addr' + k, 10)))
+
+    if not (connect('A') and connect('B')):
+        return
+    same = dn['A'] == dn['B']
+    c.let('made', tuple(made))
+    c.ensure('one-dongle-object-per-dongle-number-opened-with-that-number', 'made == %r' % ((dn['A'],) if same else (dn['A'], dn['B']),))
+    if c.get('made') != ((dn['A'],) if same else (dn['A'], dn['B'])):
+        return
+    send('A', 1)
+    send('B', 1 if same else 2)
+    c.call((drv['A'], 'close'))
+    c.ensure('close-A', 'raised is None')
+    c.call((drv['B'], 'close'))
+    c.ensure('close-B', 'raised is None')
+    serve()
+    if not connect('C'):
+        return
+    c.let('made', tuple(made))
+    n = len(made)
+    c.ensure('dongle-number-of-the-uri-is-re-opened', 'made[%d:] == (%d,)' % (1 if same else 2, dn['A']))
+    if n == (2 if same else 3):
+        send('C', n)
+  return uri_to_dongle
+
+
+_uri_to_dongle('radio.uri-to-dongle', (0, 1, 2), ('2M', '250K'))
+_uri_to_dongle('radio.uri-to-dongle.more-dongles', (0, 1, 3, 7), ('250K', '1M', '2M'), thorough_only=True)
+
+
+# ------------------------------------------------------------------------- the prrt scheme with the optional binding installed
+
+PRRT_URIS = [       # URI -> (remote address, remote port, target delay in s or None = the library default) / None = malformed
+    ('prrt://10.0.0.1:5000', ('10.0.0.1', 5000, None)), ('prrt://192.168.1.20:65535/250', ('192.168.1.20', 65535, 0.25)),
+    ('prrt://1.2.3.4:1/1', ('1.2.3.4', 1, 0.001)), ('prrt://255.255.255.255:80/999999', ('255.255.255.255', 80, 999.999)),
+    ('prrt://10.0.0.1', None), ('prrt://10.0.0.1:', None), ('prrt://10.0.0:5000', None), ('prrt://10.0.0.1:5000/', None),
+    ('prrt://10.0.0.1:5000/12x', None), ('prrt://host:5000', None), ('prrt://10.0.0.1:5000 ', None),
+]
+
+
+@contract('C20', 'drivers.prrt-binding-installed', [CRTP + ':get_link_driver', PRRT + ':PrrtDriver.connect', PRRT + ':PrrtDriver.__init__'],
+          clause='with the optional prrt binding installed the prrt scheme is claimed by the PrrtDriver and by nobody else: a well-formed '
+                 'prrt://<ip>:<port>[/<delay ms>] connects one socket to exactly that address and port with that target delay; a '
+                 'malformed prrt URI yields no driver and nothing is opened',
+          bounded='the %d URIs of PRRT_URIS, with and without the serial driver (the binding itself is a recording stub)' % len(PRRT_URIS))
+def prrt_installed(c):
+    serial = c.choice('enable_serial_driver', [False, True])
+    uri, want = PRRT_URIS[c.choice('uri_index', list(range(len(PRRT_URIS))))]
+    hardware(c, prrt=True)
+    driver_list(c, serial)
+    c.let('uri', uri)
+    c.reset_trace()
+    c.call(CRTP + ':get_link_driver', uri, c.ext('stat_cb'), c.ext('err_cb'))
+    if want is None:
+        c.ensure('no-driver', 'raised is not None or result is None')
+        c.ensure('nothing-opened', 'len(trace) == 0')
+        return
+    c.ensure('claimed-by-the-prrt-driver', "raised is None and typename(result) == 'PrrtDriver'")
+    c.ensure('only-its-hardware', 'len(trace) > 0 and all(e[0].split(".")[0] in %r for e in trace)' % (HARDWARE_OF['PrrtDriver'],))
+    c.ensure('one-socket-connected-to-the-address-and-port-of-the-uri',
+             "len(sent('prrt.PrrtSocket')) == 1 and [e[1] for e in trace if e[0] == 'prrt_socket.connect'] == [(%r,)]" % (want[:2],))
+    if want[2] is not None:
+        c.ensure('target-delay-of-the-uri', "sent('prrt.PrrtSocket')[0][2]['target_delay'] == %r" % want[2])
+
+
+# ------------------------------------------------------------------------- parse_uri: a second parse is independent of the first
+
+@contract('C20', 'parse_uri.second-parse', [PARSE],
+          clause='every parse stands for itself: the defaults of omitted fields (channel 2, 2M, E7E7E7E7E7, no rate limit) are still '
+                 'the defaults after a URI with explicit fields was parsed, an earlier result is not changed by a later parse, and the '
+                 'same URI parses to the same settings again',
+          bounded='history parse(A), parse(B), parse(A), parse(B) with A = radio://<d>/<2 digits>/1M/<10 hex digits>?rate_limit=<2 '
+                  'digits> and B = radio://<d> or radio://<d>/<1 digit>')
+def second_parse(c):
+    c.str('dA', 1, 48, 57), c.str('dB', 1, 48, 57), c.str('chanA', 2, 48, 57)
+    hexstr(c, 'addr', 10)
+    c.str('rl', 2, 48, 57)
+    c.snapshot('uriA', "'radio://' + dA + '/' + chanA + '/1M/' + addr + '?rate_limit=' + rl")
+    expA = {'channel': 'int(chanA)', 'rate': '1', 'address': address_spec('addr', 10), 'limit': 'int(rl)'}
+    expB = {'channel': '2', 'rate': '2', 'address': repr(E7), 'limit': None}
+    if c.choice('B_has_channel', [False, True]):
+        c.str('chanB', 1, 48, 57)
+        c.snapshot('uriB', "'radio://' + dB + '/' + chanB")
+        expB['channel'] = 'int(chanB)'
+    else:
+        c.snapshot('uriB', "'radio://' + dB")
+    kept = {}
+    for step, which in enumerate('ABAB'):
+        c.call(PARSE, c.get('uri' + which))
+        c.ensure('parse-%d-no-exception' % step, 'raised is None')
+        if c.get('raised') is not None:
+            return
+        exp, dev = (expA, 'int(dA)') if which == 'A' else (expB, 'int(dB)')
+        c.ensure('parse-%d-of-%s' % (step, which), 'result[0] == %s and result[1] == %s and result[2] == %s and tuple(result[3]) == %s and %s' % (
+            dev, exp['channel'], exp['rate'], exp['address'], 'result[4] is None' if exp['limit'] is None else 'result[4] == ' + exp['limit']))
+        for k, (name, e, d) in kept.items():
+            c.ensure('result-of-parse-%d-unchanged-after-parse-%d' % (k, step), 'tuple(%s[3]) == %s and %s[1] == %s' % (name, e['address'], name, e['channel']))
+        name = 'result%d' % step
+        c.let(name, c.get('result'))
+        kept[step] = (name, exp, dev)
+
+
+# ------------------------------------------------------------------------- scanning: several answers per data rate
+
+def _scan_answers(counts, addresses, **opts):
+    total = sum(counts)
+
+    @contract('C20', 'radio.scan-roundtrip.answers-%d-%d-%d' % counts,
+              [RAD + ':RadioDriver.scan_interface', RAD + ':RadioDriver._scan_radio_channels', PARSE],
+              clause='a scan reports one URI for every Crazyflie that answered - %d at 250K, %d at 1M, %d at 2M, each on its own channel - '
+                     'none lost, none twice, and each URI parses back to dongle 0, the channel of that answer, the data rate the radio '
+                     'was set to when it answered and the scanned address' % counts,
+              bounded='every answering channel symbolic 0..125; scan address one of %s (every 40-bit address: radio.scan-roundtrip)' % (
+                  ', '.join('none' if a is None else '%X' % a for a in addresses),), max_paths=6000, **opts)
+    def k(c):
+        plugged_in(c)
+        chans = [[c.int('ch%d_%d' % (r, i), 0, 125) for i in range(counts[r])] for r in range(3)]
+        state = {'scan': 0}
+
+        def scan_channels(*_a):
+            state['scan'] += 1
+            return tuple(chans[state['scan'] - 1]) if state['scan'] <= 3 else ()
+        radio_hardware(c, returns={'scan_channels': scan_channels})
+        address = addresses[c.choice('address_index', list(range(len(addresses))))]
+        c.let('address', address)
+        drv = c.new(RAD + ':RadioDriver')
+        c.call((drv, 'scan_interface'), address)
+        c.ensure('no-exception', 'raised is None')
+        if c.get('raised') is not None:
+            return
+        c.snapshot('found', 'tuple(result)')
+        c.ensure('one-uri-per-answer', 'len(found) == %d' % total)
+        if c.concretize('len(found)') != total:
+            return
+        want_addr = E7 if address is None else tuple(address // 256 ** (4 - i) % 256 for i in range(5))
+        j = 0
+        for r in range(3):
+            for i in range(counts[r]):
+                c.snapshot('u', 'found[%d][0]' % j)
+                c.call(PARSE, c.get('u'))
+                c.ensure('answer-%d-at-rate-%d-parses-back' % (i, r), 'raised is None and result[0] == 0 and result[1] == ch%d_%d and result[2] == %d '
+                         'and tuple(result[3]) == %r and result[4] is None' % (r, i, r, want_addr))
+                j += 1
+    return k
+
+
+SCAN_ADDRESSES = (None, 0xE7E7E7E7E7, 0x0102030405, 0xB1)
+for _counts in [(a, b, d) for a in range(3) for b in range(3) for d in range(3)]:
+    if _counts in ((1, 0, 2), (0, 2, 1)):
+        _scan_answers(_counts, SCAN_ADDRESSES)
+    elif _counts != (1, 1, 1):              # (1, 1, 1) is radio.scan-roundtrip
+        _scan_answers(_counts, SCAN_ADDRESSES, thorough_only=True)
+
+
+def _scan_selected_answers(n_answers, **opts):
+    @contract('C20', 'radio.scan-selected.bootloader-uris.%d' % n_answers, [RAD + ':RadioDriver.scan_selected', PARSE],
+              clause='scan_selected with URIs that carry an address field (as the bootloader passes them: radio://0/110/2M/E7E7E7E7E7, '
+                     'radio://0/0/2M/E7E7E7E7E7) asks the radio for exactly their channels and data rates, and with %d answers it '
+                     'reports %d URIs, each parsing back to dongle 0, the channel and data rate of that answer and the address of the '
+                     'link that scanned (the default address)' % (n_answers, n_answers),
+              bounded='%d answers with symbolic channel 0..125 and rate code 0..2' % n_answers, max_paths=3000, **opts)
+    def k(c):
+        answers = []
+        for i in range(n_answers):
+            answers.append(c.dict([('channel', c.int('ch%d' % i, 0, 125)), ('datarate', c.int('dr%d' % i, 0, 2))]))
+        radio_hardware(c, returns={'scan_selected': lambda *_a: tuple(answers)})
+        drv = c.new(RAD + ':RadioDriver')
+        c.call((drv, 'connect'), 'radio://0/80/2M/E7E7E7E7E7', c.ext('stat_cb'), c.ext('err_cb'))
+        c.require('raised is None')
+        c.reset_trace()
+        c.call((drv, 'scan_selected'), ('radio://0/110/2M/E7E7E7E7E7', 'radio://0/0/2M/E7E7E7E7E7', 'radio://0/7/250K/E7E7E7E7E7'))
+        c.ensure('no-exception', 'raised is None')
+        if c.get('raised') is not None:
+            return
+        c.ensure('asked-for-the-given-channels-and-rates', "len(sent('radio.scan_selected')) == 1 and tuple(sent('radio.scan_selected')[0][1][0]) == "
+                 "({'channel': 110, 'datarate': 2}, {'channel': 0, 'datarate': 2}, {'channel': 7, 'datarate': 0})")
+        c.snapshot('found', 'tuple(result)')
+        c.ensure('one-uri-per-answer', 'len(found) == %d' % n_answers)
+        if c.concretize('len(found)') != n_answers:
+            return
+        for i in range(n_answers):
+            c.snapshot('u', 'found[%d]' % i)
+            c.call(PARSE, c.get('u'))
+            c.ensure('answer-%d-parses-back' % i, 'raised is None and result[0] == 0 and result[1] == ch%d and result[2] == dr%d and '
+                     'tuple(result[3]) == %r and result[4] is None' % (i, i, E7))
+    return k
+
+
+_scan_selected_answers(0)
+_scan_selected_answers(2)
+_scan_selected_answers(3, thorough_only=True)
+
+
+@contract('C20', 'radio.scan-selected-roundtrip.address', [RAD + ':RadioDriver.scan_selected', RAD + ':RadioDriver.connect', PARSE],
+          clause='URIs reported by scanning parse back to the scanned address: scan_selected scans with the address of the link it is '
+                 'called on, so on a link connected to a non-default address the reported URIs must name that address',
+          bounded='link connected to radio://0/80/2M/<10 hex digits>; one URI to scan, one answer (symbolic channel and rate)',
+          thorough_only=True)
+def scan_selected_address(c):
+    # CANDIDATE FINDING on the unchanged tree (thorough tier only until triaged): the reported URI never carries an address, it parses
+    # back to E7E7E7E7E7 whatever address was scanned
+    ch, dr = c.int('ch', 0, 125), c.int('dr', 0, 2)
+    answer = c.dict([('channel', ch), ('datarate', dr)])
+    radio_hardware(c, returns={'scan_selected': lambda *_a: (answer,)})
+    hexstr(c, 'addr', 10)
+    c.snapshot('uri', "'radio://0/80/2M/' + addr")
+    drv = c.new(RAD + ':RadioDriver')
+    c.call((drv, 'connect'), c.get('uri'), c.ext('stat_cb'), c.ext('err_cb'))
+    c.require('raised is None')
+    c.snapshot('scanned_address', "tuple(sent('radio.set_address')[0][1][0])")
+    c.call((drv, 'scan_selected'), ('radio://0/10/250K',))
+    c.require('raised is None and len(result) == 1')
+    c.snapshot('u', 'result[0]')
+    c.call(PARSE, c.get('u'))
+    c.ensure('parses-back-to-the-scanned-address', 'raised is None and result[1] == ch and result[2] == dr and tuple(result[3]) == scanned_address')
+
+
+# ------------------------------------------------------------------------- query options other than rate_limit
+
+OPTION_SHAPES = ["'?x=1'", "'?x=1&rate_limit=' + rl", "'?rate_limit=' + rl + '&x=1'", "'?safelink=0&rate_limit=' + rl + '&y=ab'", "'?rate_limit=' + rl + '#frag'",
+                 "'?ratelimit=7'", "'?rate_limit_=7&_rate_limit=8'"]
+
+
+@contract('C20', 'parse_uri.other-options', [PARSE],
+          clause='query options: the rate limit is the value of the option named rate_limit wherever it stands among other options, and '
+                 'other options (or none named rate_limit) change nothing of dongle, channel, data rate and address',
+          bounded='the %d option shapes of OPTION_SHAPES after radio://<1 digit>/<2 digits>[/<rate>[/<10 hex digits>]]; rate_limit value of '
+                  '1, 2 or 4 digits' % len(OPTION_SHAPES), max_paths=3000)
+def other_options(c):
+    c.str('dongle', 1, 48, 57)
+    c.str('chan', 2, 48, 57)
+    exp = {'channel': 'int(chan)', 'rate': '2', 'address': repr(E7), 'limit': None}
+    uri = "'radio://' + dongle + '/' + chan"
+    rate = c.choice('rate', [None, '250K', '1M', '2M'])
+    if rate is not None:
+        uri += " + '/%s'" % rate
+        exp['rate'] = str(RATE_CODE[rate])
+        if c.choice('with_address', [False, True]):
+            hexstr(c, 'addr', 10)
+            uri += " + '/' + addr"
+            exp['address'] = address_spec('addr', 10)
+    shape = OPTION_SHAPES[c.choice('option_shape', list(range(len(OPTION_SHAPES))))]
+    if 'rl' in shape.replace('rate_limit', '').replace('ratelimit', ''):
+        c.str('rl', c.choice('rate_limit_digits', [1, 2, 4]), 48, 57)
+        exp['limit'] = 'int(rl)'
+    c.snapshot('uri', uri + ' + ' + shape)
+    c.call(PARSE, c.get('uri'))
+    check_parse(c, 'int(dongle)', exp)
+
+
+# ------------------------------------------------------------------------- open_link: every attempt is reported on its own
+
+@contract('C20', 'open_link.twice', [CF + ':Crazyflie.open_link', CRTP + ':get_link_driver'],
+          clause='a failed open_link leaves the Crazyflie usable: a second open_link with another unknown or malformed URI (real driver '
+                 'lookup) is again answered by exactly one connection_failed notification that names the second URI, no exception, no '
+                 'link, nothing opened',
+          bounded='pairs of URIs out of 6 (unknown scheme, malformed radio / usb / serial / prrt URIs), serial driver enabled')
+def open_link_twice(c):
+    uris = ['bogus://something', 'radio://0/abc', 'usb://x', 'serial://nosuchport', 'prrt://x', 'radio://0/80/2M/G7']
+    claimed = {'radio://0/abc', 'serial://nosuchport', 'prrt://x', 'radio://0/80/2M/G7'}
+    first = uris[c.choice('first', list(range(len(uris))))]
+    second = uris[c.choice('second', list(range(len(uris))))]
+    hardware(c)
+    driver_list(c, True)
+    cf = crazyflie(c)
+    c.call((cf, 'open_link'), first)
+    c.require('raised is None')
+    c.let('uri', second)
+    c.reset_trace()
+    c.call((cf, 'open_link'), second)
+    check_failed_notification(c, "Couldn't load link driver: " if second in claimed else 'No driver found or malformed URI: ' + second)
+    c.ensure('nothing-opened', "all(e[0] in ('get_serials', 'serial_devices') or e[0].startswith('connection_') for e in trace)")
